@@ -254,6 +254,15 @@ def decide(prop, scratch, tier, seed, t0):
         notes.extend(ex.get("notes", []))
         nontrivial.update(ex.get("nontrivial", []))
 
+    if os.environ.get("VERIF_VERBOSE"):
+        seen = collections.Counter()
+        for f in failures:
+            seen[f.get("class")] += 1
+            if seen[f.get("class")] <= int(os.environ.get("VERIF_VERBOSE")):
+                print("  FAIL[%s][%s] %s" % (f.get("class"), f.get("backend"), f["what"][:400]))
+        print("  classes:", dict(seen))
+        for d in disagreements[: int(os.environ.get("VERIF_VERBOSE"))]:
+            print("  DIFF[%s] %s model=%s impl=%s" % (d["backend"], props.pretty(d["op"]), props.pretty_out(d["model"]), props.pretty_out(d["impl"])))
     # ---- 5. verdict
     known = core.load_known(pid)
     unlisted = []
